@@ -16,6 +16,8 @@ EXTENDS Integers, Sequences, FiniteSets, TLC
 \* pre / post are Engine!Post records (as logged by the driver) turned into the form the monitors
 \* read: stash as a set, sent as a function from number to [k, x, ref]
 ToMP(p) == [p EXCEPT !.stash = {p.stash[i] : i \in DOMAIN p.stash},
+                     !.stasht = [n \in {p.stash[i] : i \in DOMAIN p.stash} |->
+                                    p.stasht[CHOOSE i \in DOMAIN p.stash : p.stash[i] = n]],
                      !.sent = [n \in {p.sent[i].n : i \in DOMAIN p.sent} |->
                                   LET r == CHOOSE i \in DOMAIN p.sent : p.sent[i].n = n IN
                                   [k |-> p.sent[r].k, x |-> p.sent[r].x, ref |-> p.sent[r].ref]]]
@@ -118,19 +120,24 @@ C04_Clause(c, aux, o) ==
       [] c = "keepsEarly" ->     \* an early message arriving during recovery is kept too
             (tooHigh /\ pre.st \in Recovering /\ o.post.st \in LoggedOnSt) => m.seq \in o.post.stash
       [] c = "nothingKeptIsLost" ->
-            \* leaving recovery, or staying in it, no kept message above the expected number disappears
-            \* (one AT the expected number may have been processed without consuming a number)
-            (pre.st \in Recovering /\ o.post.st \in LoggedOnSt /\ o.post.ep = pre.ep
+            \* while recovery goes on, no kept message above the expected number disappears
+            (pre.st \in Recovering /\ o.post.st \in Recovering /\ o.post.ep = pre.ep
                 /\ o.ev.k \in {"Incoming", "Consume", "Timeout"}) =>
                 \A k \in pre.stash : k > o.post.nIn => k \in o.post.stash
+      [] c = "drainDelivers" ->
+            \* once the missing numbers have arrived every kept message that is next in sequence is
+            \* delivered: recovery never ends with a kept, number-consuming message AT the expected number
+            (pre.st \in Recovering /\ o.post.st \in {"inSession", "pending(inSession)"} /\ o.post.ep = pre.ep
+                /\ o.ev.k \in {"Incoming", "Consume"}) =>
+                ~(o.post.nIn \in pre.stash /\ pre.stasht[o.post.nIn] \in {"D", "0", "1", "3"})
 
-C04_Names == {"requestOnGap", "requestOnLogonGap", "noExtraRequest", "keepsEarly", "nothingKeptIsLost"}
+C04_Names == {"requestOnGap", "requestOnLogonGap", "noExtraRequest", "keepsEarly", "nothingKeptIsLost", "drainDelivers"}
 C04_Fails(aux, o) == {c \in C04_Names : ~C04_Clause(c, aux, o)}
 C04_Step(aux, o) == C04_Fails(aux, o) = {}
 
 \* ------------------------------------------------------------------ C06
 Froms(o) == Sel(o.cb, LAMBDA c : c.k \in {"FromApp", "FromAdmin"})
-Rejects(o) == Sel(o.out, LAMBDA x : x.t \in {"3", "j"})
+Rejects(o) == Sel(o.out, LAMBDA x : x.t \in {"3", "j"} /\ ~x.pd)        \* first-time rejects (not replays)
 ExpectedRouting == "49=ENG|56=PEER|50=ESUB|57=PSUB|143=PLOC|115=DLV|128=OBO"
 
 \* does the message fail a session-level check the property lists?
